@@ -75,6 +75,9 @@ def expected_tokens(stream):
             out.append(["doctype", t["name"] or "", t["publicId"] or "", t["systemId"] or ""])
         else:
             out.append(["other", ty])
+    for e in out:
+        if e[0] == "chars":
+            e[1] = join_surrogates(e[1])  # a pair split over two adjacent text tokens is one character as well
     return out
 
 
@@ -193,6 +196,19 @@ def judge(ctx, case, stream, opts, scripting, label):
         if tok is None and e is None:
             return
         where = "token %d: stream %r, re-read %r" % (i, e[:3] if e else None, tok)
+        if (e is not None and e[0] == "start" and so.get("minimize_boolean_attributes", True) and
+                (tok is None or tok[0] != "start" or tok[1] != e[1])):
+            # listed mechanism, quote variant: a minimised boolean attribute followed by an attribute whose name starts
+            # with =" or =' : the '=' is read as the value separator of the minimised attribute and the quote opens a
+            # quoted value that swallows what follows (possibly up to the end of the output, so no tag token at all)
+            names = [lower_ascii(ln) if ns is not None else qn for (qn, v, ns, ln) in e[2]]
+            for k2 in range(len(names) - 1):
+                if (names[k2 + 1][:1] == "=" and names[k2 + 1][1:2] in ('"', "'") and
+                        (names[k2] in BOOL_TABLE.get(e[5], ()) or names[k2] in BOOL_TABLE[""])):
+                    if e[2][k2][1] != "":
+                        known("boolean-attribute-value-minimised", where)
+                    known("equals-named-attribute-after-minimised-attribute", where)
+                    return
         if tok is None or e is None:
             pass
         elif e[0] == "start" and tok[0] == "start" and tok[1] == e[1]:
